@@ -20,7 +20,16 @@ def decl_lists(h, n, L, ctype, starts='fromstarts', stops='fromstops', lenconten
     """n lists given by (starts[i], stops[i]) of C type ctype obeying the documented ListArray rule, each of
     length <= L.  lencontent: optional z3 term bounding stops.  Returns list of (start, stop, length) wide terms."""
     h.arr(starts, ctype, n, const=const)
-    h.arr(stops, ctype, n, const=const)
+    if lens is not None:
+        # size case-split: stops are *defined* as starts + the concrete length, so stop - start folds to a constant
+        bits = kspec.CT[ctype][1]
+        sarr = h.arrays[starts].init
+        e = z3.Array(stops + '!rest', z3.BitVecSort(64), z3.BitVecSort(bits))
+        for i in range(n):
+            e = z3.Store(e, z3.BitVecVal(i, 64), z3.Select(sarr, z3.BitVecVal(i, 64)) + z3.BitVecVal(lens[i], bits))
+        h.arr(stops, ctype, n, const=const, expr=e)
+    else:
+        h.arr(stops, ctype, n, const=const)
     out = []
     for i in range(n):
         a, b = h.init(starts, i), h.init(stops, i)
@@ -35,7 +44,18 @@ def decl_lists(h, n, L, ctype, starts='fromstarts', stops='fromstops', lenconten
 
 def decl_offsets(h, n, L, ctype, name='fromoffsets', lencontent=None, const=True, zero_based=False, lens=None):
     """offsets array of n+1 entries obeying the documented ListOffsetArray rule, list lengths <= L"""
-    h.arr(name, ctype, n + 1, const=const)
+    if lens is not None:
+        bits = kspec.CT[ctype][1]
+        first = z3.BitVec(name + '!first', bits)
+        e = z3.Array(name + '!rest', z3.BitVecSort(64), z3.BitVecSort(bits))
+        acc = first
+        e = z3.Store(e, z3.BitVecVal(0, 64), acc)
+        for i in range(n):
+            acc = acc + z3.BitVecVal(lens[i], bits)
+            e = z3.Store(e, z3.BitVecVal(i + 1, 64), acc)
+        h.arr(name, ctype, n + 1, const=const, expr=e)
+    else:
+        h.arr(name, ctype, n + 1, const=const)
     out = []
     if zero_based:
         h.assume(h.init(name, 0) == 0)
